@@ -201,10 +201,32 @@ func checkTable(flavor string, cfg ref.Cfg, f replication.BinlogFormat, t *ref.T
 			return "types:" + countClass(n), fmt.Sprintf("column %d of %d: type %d, written %d", i, n, tm.Types[i], c.Type)
 		}
 	}
+	first, wrong, withMeta, metaLen := -1, 0, 0, 0
 	for i, c := range t.Cols {
-		if w := c.MetaWord(); tm.Metadata[i] != w {
-			return fmt.Sprintf("meta:type=%d", c.Type), fmt.Sprintf("column %d of %d (type %d, metadata bytes % x): Metadata %#04x, expected %#04x", i, n, c.Type, c.Meta, tm.Metadata[i], w)
+		metaLen += len(c.Meta)
+		if len(c.Meta) > 0 {
+			withMeta++
 		}
+		if tm.Metadata[i] != c.MetaWord() {
+			wrong++
+			if first < 0 {
+				first = i
+			}
+		}
+	}
+	if first >= 0 {
+		c := t.Cols[first]
+		detail := fmt.Sprintf("column %d of %d (type %d, metadata bytes % x): Metadata %#04x, expected %#04x; %d of %d columns wrong, metadata block %d bytes",
+			first, n, c.Type, c.Meta, tm.Metadata[first], c.MetaWord(), wrong, n, metaLen)
+		if n > 2 && wrong*2 > withMeta {
+			// most columns are wrong: the block as a whole is misplaced, not one type misread
+			blk := "block<251"
+			if metaLen >= 251 {
+				blk = "block>=251"
+			}
+			return "meta:misplaced:" + blk + ":" + countClass(n), detail
+		}
+		return fmt.Sprintf("meta:type=%d", c.Type), detail
 	}
 	opt := "no-optional"
 	if len(t.Optional) > 0 {
@@ -461,7 +483,7 @@ func cfgOf(six bool, cs byte) ref.Cfg {
 //	head product: every table id x flags x db name length x table name length x
 //	  optional trailer x checksum x constructor, over a schema set: in quick the
 //	  core schemas (every 16th rotation + two uniform tables per count) with the
-//	  four dense bitmaps; in thorough every schema with the quick bitmap set.
+//	  four dense bitmaps; in thorough every schema with the four dense bitmaps.
 func RunDecode(r *chk.Run) {
 	thorough := r.Thorough()
 	variants := Variants()
@@ -521,8 +543,8 @@ func RunDecode(r *chk.Run) {
 		patterns[n] = NullPatterns(n, thorough)
 		patCount[n] = len(patterns[n])
 		hp := NullPatterns(n, false)
-		if !thorough && len(hp) > 4 {
-			hp = hp[:4]
+		if len(hp) > 4 {
+			hp = hp[:4] // all, none, even, odd (the first four bitmaps when n <= 4)
 		}
 		headPatterns[n] = hp
 	}
@@ -683,7 +705,7 @@ func RunDecode(r *chk.Run) {
 	r.Set("decode_constructors", "NewMysql56BinlogEvent, NewMariadbBinlogEvent")
 	r.Set("decode_header_length", 19)
 	if thorough {
-		r.Set("decode_products", "tail: all schemas x all bitmaps x names x optional x checksum x id width; head: all schemas x quick bitmap set x ids x flags x names x optional x checksum x constructor")
+		r.Set("decode_products", "tail: all schemas x all bitmaps x names x optional x checksum x id width; head: all schemas x 4 dense bitmaps x ids x flags x names x optional x checksum x constructor")
 	} else {
 		r.Set("decode_products", "tail: all schemas x all bitmaps x names x optional x checksum x id width; head: core schemas (every 16th rotation + 2 uniform tables per count) x 4 dense bitmaps x ids x flags x names x optional x checksum x constructor")
 	}
